@@ -271,7 +271,7 @@ fn check_case(rep: &Report, c: &Case, idx: usize, env: &drive::Env) {
             }
         }
     }
-    if idx % 9973 == 0 {
+    if idx % 9973 == 0 || rep.no_sample_yet() {
         rep.sample(5, || json!({"literal": text, "type": c.ty.render(), "r4": format!("{expect:?}")}));
     }
 }
